@@ -259,6 +259,28 @@ TruncateOutcomes(b) ==
            ELSE {[res |-> "ok", b |-> TruncateTo(b, c)] : c \in C}
          : tip \in TipsOf(b)}
 
+\* A truncation whose context is cancelled at one of the inspections of the three walks (the context is the node's
+\* root context: shutdown).  What the code does is NOT atomic, and is modelled as it is:
+\*   first walk   the cut is not found: nothing happens and the call reports success;
+\*   second walk  (per vertex: add to the funds map, copy the vertex to the store) - some of the vertices below the
+\*                cut are in the store AND still in the graph, the checkpointed funds are the old ones;
+\*   third walk   (collect the ids to delete) - every vertex below the cut is in the store, the funds are the new
+\*                ones, and the vertices are still in the graph;
+\*   too late     the truncation completes.
+\* The two atomic outcomes (nothing / everything) are allowed with either result.
+TruncateCancelledOutcomes(b) ==
+    IF TipsOf(b) = {} THEN {[res |-> "ok", b |-> b]}
+    ELSE UNION {
+           LET C == CutCandidates(b, tip, TruncDepth) IN
+           {[res |-> r, b |-> b] : r \in {"ok", "error"}}
+           \cup UNION {
+                 LET M == Anc(b, c) IN
+                 {[res |-> r, b |-> TruncateTo(b, c)] : r \in {"ok", "error"}}
+                 \cup {[res |-> "error", b |-> [b EXCEPT !.stored = @ \cup X]] : X \in SUBSET M}
+                 \cup {[res |-> "error", b |-> [b EXCEPT !.stored = @ \cup M, !.ck = CkAfter(b, M)]]}
+               : c \in C}
+         : tip \in TipsOf(b)}
+
 ----------------------------------------------------------------------------
 (* read-only operations *)
 
